@@ -52,9 +52,12 @@ Record config := mkCfg {
   c_custom : N -> N -> N;        (* CustomHashFunction::hash key n, arbitrary *)
   c_prio_of : N -> N;            (* PriorityManager::get_priority, as an index *)
   c_discardable : N -> bool;     (* PriorityManager::is_discardable *)
-  c_shutdown_worker_queues : bool }.
+  c_shutdown_worker_queues : bool;
+  c_flush_backlog : bool }.
     (* true = the code after `fix: report jobs queued on workers to the discard handler when the
-       factory stops` (F4); false = the rule before it, kept for the refutation witness *)
+       factory stops` (F4); false = the rule before it, kept for the refutation witness.
+       c_flush_backlog: true = a growing pool of a worker-queueing router hands the WHOLE factory-queue
+       backlog to the workers (F8 fix); false = at most pool_size jobs, the rule before it *)
 
 (* factory-side bookkeeping of one worker slot (WorkerProperties) *)
 Record wprops := mkW {
@@ -655,6 +658,18 @@ Fixpoint route_n (c : config) (n : nat) (w : world) : world :=
             end
   end.
 
+(* grow branch for worker-queueing routers after the F8 fix: route until nothing moves *)
+Fixpoint route_all (c : config) (fuel : nat) (w : world) : world :=
+  match fuel with
+  | O => w
+  | S f => match q_peek (fq w) with
+           | None => w
+           | Some _ =>
+               let w' := try_route_next c None w in
+               if qlen (fq w') <? qlen (fq w) then route_all c f w' else w'
+           end
+  end.
+
 Definition resize_pool (c : config) (requested : N) (w : world) : world :=
   if requested =? 0 then w
   else
@@ -662,7 +677,8 @@ Definition resize_pool (c : config) (requested : N) (w : world) : world :=
     let nw := N.min 1000000 requested in
     if cur <? nw then
       let w := set_pool_size nw (grow_pool c (N.to_nat (nw - cur)) cur w) in
-      route_n c (N.to_nat nw) w
+      if factory_queueing c || negb (c_flush_backlog c) then route_n c (N.to_nat nw) w
+      else route_all c (S (length (concat (fq w)))) w
     else if nw <? cur then
       set_pool_size nw (shrink_pool c (N.to_nat (cur - nw)) nw w)
     else w.
